@@ -8,7 +8,9 @@ from . import facts as factsmod
 from .facts import AnalysisBroken, VERIF
 
 KNOWN = os.path.join(VERIF, 'known_findings.json')
-EVID = os.path.join(VERIF, 'evidence')
+# scratch runs (selftest / seed sweeps with VERIF_REPO=<worktree>) may redirect their evidence so that they never
+# overwrite the registered evidence of /repo
+EVID = os.environ.get('VERIF_EVIDENCE_DIR') or os.path.join(VERIF, 'evidence')
 
 
 class Finding:
@@ -50,6 +52,7 @@ class Ctx:
         self.assumptions = []
         self.notes = []
         self.analysed_functions = set()
+        self.opaque = []
 
     # ---- bookkeeping
     def rule(self, rid, desc, floor=1):
@@ -91,6 +94,20 @@ class Ctx:
             line = node['l']
         elif isinstance(node, int):
             line = node
+        # a function that calls a later-added helper which normalisation could not inline (loops, recursion) does not
+        # have the shape the rule was written against: a report about it is "cannot analyse", not a violation
+        opaque = None
+        if isinstance(f, dict):
+            kept = set(self.F.get('normalize', {}).get('kept_helpers', ()))
+            if kept:
+                from .astq import walk as _walk
+                for n in _walk(f.get('body')):
+                    if n.get('k') == 'call' and n.get('fn') in kept:
+                        opaque = n['fn']
+                        break
+        if opaque:
+            self.opaque.append((rid, fn, opaque, message))
+            return
         if rid in self.rules:
             self.rules[rid]['violations'] += 1
         self.findings.append(Finding(self.prop, rid, file, line, fn, construct, message, extra))
@@ -154,6 +171,10 @@ def finish(ctx, level, t0, checker_cmd, extra_cov=None, trusted=None):
         if r['instances'] < r['floor'] and r['violations'] == 0:
             raise AnalysisBroken('%s: rule %s matched %d instance(s), floor is %d (%s)'
                                  % (prop, rid, r['instances'], r['floor'], r['desc']))
+    if ctx.opaque and not ctx.findings:
+        rid, fn, helper, msg = ctx.opaque[0]
+        raise AnalysisBroken('%s: rule %s cannot see through helper %s called from %s (not part of the analysed vocabulary and '
+                             'not inlinable); the construct it checks was not recognised: %s' % (prop, rid, helper, fn, msg[:200]))
     known = [k for k in load_known() if k.get('property') == prop]
     known_keys = {k['key']: k for k in known if k.get('status') == 'known'}
     new, kn = [], []
